@@ -2710,6 +2710,10 @@ namespace awkward {
               return;
             }
             num_items = stack_pop();
+            if (num_items < 0) {
+              current_error_ = util::ForthError::read_beyond;
+              return;
+            }
           }
 
           I format = ~bytecode & READ_MASK;
